@@ -145,26 +145,49 @@ Qed.
 
 (* Where no intermediate result leaves the range of its static type (and there is no division or power),
    the generated C++ and the generated Python compute the mathematical value. *)
-Theorem eval_agree : forall env vals e, in_range_all env vals e = true ->
-  eval_cpp env vals e = eval_math vals e /\ eval_py vals e = eval_math vals e.
+Lemma wrap_promote_in_range : forall p z, is_int_prim p = true -> irange p z = true -> wrap (promote p) z = z.
+Proof.
+  intros p z Hp Hr. unfold wrap, irange, int_ok in *.
+  destruct p; vm_compute in Hp; try discriminate; cbn [promote int_width] in *; unfold in_range_s, in_range_u in Hr;
+    norm_pows; cbv zeta;
+    try (match goal with |- context [if ?c then _ else _] => destruct c eqn:E end); lia.
+Qed.
+
+Lemma eval_in_agree : forall env vals e, in_range_all env vals e = true ->
+  eval_cpp_in env vals e = eval_math vals e /\ eval_py vals e = eval_math vals e.
 Proof.
   intros env vals e. induction e as [i|z|a IH|o a IHa b IHb]; intros H.
   - split; reflexivity.
   - split; reflexivity.
   - destruct (in_range_all_node _ _ _ H) as [t [Ht [Hi Hr]]].
     cbn [in_range_all] in H. apply andb_true_iff in H. destruct H as [_ Ha].
-    destruct (IH Ha) as [I1 I2]. cbn [eval_cpp eval_py eval_math infer] in *. rewrite Ht, I1, I2.
-    split; [apply wrap_in_range; assumption|reflexivity].
+    destruct (IH Ha) as [I1 I2]. cbn [eval_cpp_in eval_py eval_math infer] in *. rewrite Ht, I1, I2.
+    split; [apply wrap_promote_in_range; assumption|reflexivity].
   - destruct (in_range_all_node _ _ _ H) as [t [Ht [Hi Hr]]].
     cbn [in_range_all] in H. apply andb_true_iff in H. destruct H as [_ H].
     apply andb_true_iff in H. destruct H as [H Hops]. apply andb_true_iff in H. destruct H as [H Hb].
     apply andb_true_iff in H. destruct H as [Ho Ha].
     destruct (IHa Ha) as [A1 A2]. destruct (IHb Hb) as [B1 B2].
     rewrite Ht in Hops. apply andb_true_iff in Hops. destruct Hops as [Ra Rb].
-    cbn [eval_cpp eval_py eval_math]. rewrite Ht, A1, A2, B1, B2.
+    cbn [eval_cpp_in eval_py eval_math]. rewrite Ht, A1, A2, B1, B2.
     rewrite (wrap_in_range t _ Hi Ra), (wrap_in_range t _ Hi Rb).
     split; [apply wrap_in_range; assumption|]. destruct o; try reflexivity; discriminate.
 Qed.
+
+Theorem eval_agree : forall env vals e, in_range_all env vals e = true ->
+  eval_cpp env vals e = eval_math vals e /\ eval_py vals e = eval_math vals e.
+Proof.
+  intros env vals e H. destruct (eval_in_agree env vals e H) as [H1 H2]. split; [|exact H2].
+  destruct (in_range_all_node _ _ _ H) as [t [Ht [Hi Hr]]].
+  unfold eval_cpp. rewrite Ht, H1. apply wrap_in_range; assumption.
+Qed.
+
+(* the unary minus on a narrow unsigned operand is only wrapped when it is converted back to the narrow type: inside a larger
+   expression C++ has promoted the operand to int *)
+Example nested_negation_is_promoted :
+  eval_cpp [PUint16; PInt16] [127; 11] (EBin OAdd (EBin OSub (ELit 2) (ENeg (EField 0))) (EField 1)) = 140
+  /\ eval_cpp [PUint16] [127] (ENeg (EField 0)) = 65409.
+Proof. vm_compute. split; reflexivity. Qed.
 
 (* Division is where the targets part ways: C++ truncates, Python floors *)
 Theorem division_refuted :
